@@ -204,6 +204,11 @@ func runC09(ctx *Ctx) error {
 	for i := 0; i < n; i++ {
 		s := c09Spec{Type: types[r.Intn(len(types))], Mycall: r.Callsign(), BodySet: r.Intn(12) != 0,
 			Date: time.Unix(int64(r.Intn(2000000000)), 0).UTC().Truncate(time.Minute)}
+		if r.Intn(3) == 0 {
+			// the same instant as a wall-clock reading elsewhere: the header has no zone and is UTC
+			off := []int{3600, -3600, 19800, -34200, 50400, -43200, 7200}[r.Intn(7)]
+			s.Date = s.Date.In(time.FixedZone("zone", off))
+		}
 		for k := r.Intn(5); k > 0; k-- {
 			s.To = append(s.To, r.Address())
 		}
